@@ -12,6 +12,19 @@ def _c(text, ref):
 
 
 CLAIMS = {
+    "C04": _c("Bounded symbolic model checking of the real experimental_execute_incrementally on a deterministic event loop: 12 "
+              "request templates with @defer/@stream (nested, overlapping at different depths, inside streamed items, shared "
+              "execution groups, fragments deferred and plain, errors) whose directive `if` values, sync/awaitable resolver "
+              "positions, consumer timing and completion order (scheduler decisions) are symbolic. The payloads are applied to the "
+              "initial result exactly as the delivery format prescribes and compared with the same operation executed with the "
+              "directives disabled (error-free: equality; otherwise refinement of the non-propagating reference).",
+              "DESIGN.md section 7, C04"),
+    "C05": _c("Same executions as C04, judged by a delivery-protocol validator: every id announced once before use and never "
+              "reused, every incremental entry targets a pending id and an existing object or list, every announced id completed "
+              "exactly once, no nested fragment announced while its enclosing announced fragment is pending, stream items in order "
+              "without gaps, hasNext true except on the last payload and nothing after it. The WorkQueue / StreamItemQueue unit "
+              "obligations of the design are not built; the end-to-end obligations drive those classes through the executor.",
+              "DESIGN.md section 7, C05"),
     "C07": _c("Bounded symbolic model checking of the real subscribe() / map_source_to_response_event on a deterministic event loop: "
               "0..3 source events with solver-chosen payload kinds (incl. payloads causing field errors and the event None), source "
               "failure at any position, four kinds of source iterator, argument via variable, optional awaitable nested resolver "
